@@ -3,6 +3,7 @@ import Driver.Arrays
 import Driver.Bits
 import Driver.Packed
 import Driver.BitmapOps
+import Driver.DimOps
 /- vdriver: reads one operation per line, prints the model's canonical result line. -/
 open Driver
 
@@ -21,7 +22,9 @@ def runLine (line : String) : String :=
           | some r => r
           | none => match bitmapOp toks with
             | some r => r
-            | none => "bad-op"
+            | none => match dimOp toks with
+              | some r => r
+              | none => "bad-op"
 
 partial def loop (h : IO.FS.Stream) (out : IO.FS.Stream) : IO Unit := do
   let line ← h.getLine
